@@ -150,7 +150,8 @@ class FLock:
 
 
 def coq_make(targets, timeout=1500):
-    with FLock("coq"):
+    # VERIF_REPO runs build in their private copy of coq/: they need not queue behind the main tree's lock
+    with FLock("coq" + ("-" + os.path.basename(ALT_DIR) if ALT else "")):
         coq_prepare()
         rc, out, dt = sh(["make", "-j%d" % NCPU] + list(targets), cwd=COQ, timeout=timeout)
     return rc, out, dt
